@@ -419,3 +419,9 @@ def r9(ctx):
 def r_sib_r_c02_10(ctx):
     from .c03 import r4 as head_read_exactly
     head_read_exactly(ctx)
+
+
+@rule("R-C02-11", min_instances=2, title="the frame reader's per-frame state (header, length, key) is read, used and reset inside one section of the frame lock: a second caller of recv_frame (close() is one) never parses its frame with the previous frame's header")
+def r_sib_r_c02_11(ctx):
+    from .c12 import frame_lock_scope
+    frame_lock_scope(ctx)
